@@ -58,10 +58,10 @@ reg("C17", "model_checking", "stateless DFS over all interleavings (preemption-b
     "The real linker.PatchLinker plus the unlock/run order extracted from main.go, 2-4 simulated processes, 5 initial cache states, both install modes, 0-2 crashes: on every execution each process that executes the linker reads a complete image of its own version, no deadlock, all live processes finish. Real concurrent builds are sampled in addition.",
     "external tools are stubs validated against strace of the real go command; go-internal's cache is not re-verified", "DESIGN.md 4 C17")
 reg("C18", "fault_enumeration", "crash-point enumeration on the real build: ptrace supervisor kills the process tree before the K-th file-system mutation, for every selected K, then recovery build", C,
-    "Real garble builds from three start states; killed before each (thorough) / a class-covering selection (quick) of the mutations touching GOCACHE, GARBLE_CACHE and the output; re-running the build on the surviving state must succeed and reproduce the reference binary.",
+    "Real garble builds from three start states (one with a foreign linker under a stale stamp); killed before each (thorough) / a class-covering selection (quick) of the mutations touching GOCACHE, GARBLE_CACHE and the output; re-running the build on the surviving state must succeed and reproduce the reference binary. Plus -debugdir over an owned directory: every subset of its top-level entries already removed (all states a kill inside the emptying phase can leave under any directory order), each followed by the real build; the model of the emptying phase is compared with a supervised real run.",
     "one schedule (-p 1); torn single writes are not produced", "DESIGN.md 4 C18")
 reg("C19", "exploration", "exhaustive enumeration commands x outcomes x -debugdir target states x cache states with recursive snapshots", A,
-    "All commands x 7 outcomes and build x 9 debugdir states x cache states: source tree byte-identical, private TMPDIR empty, foreign targets untouched and refused, owned targets complete, identical across runs, and every garbled file corresponds to its source.",
+    "All commands x 7 outcomes and build x 9 debugdir states x cache states: source tree byte-identical, private TMPDIR empty, foreign targets untouched and refused, owned targets complete, identical across runs, every garbled Go file corresponds to its source (declaration skeleton) and every garbled assembly/header file of every package is the line-by-line image of its source.",
     "TMPDIR private per run", "DESIGN.md 4 C19")
 reg("C20", "exploration", "exhaustive argv enumeration (length <=3/4 over the go command's real flag set, probed from the go binary) at the function seam + CLI conformance through a stub go", E,
     "Every vector over {each flag in 4 spellings} U values against a reference splitter and forward filter whose flag table is probed from the real go binary; ~250 CLI vectors compare the argv garble hands to go list / go build with the prediction; garble flags after the command and unknown flags for reverse/map are rejected.",
